@@ -227,9 +227,12 @@ enum Topo {
     VerifyInGuard,
     /// the same with a clone still alive (verification could not even be attempted)
     VerifyInGuardCloneAlive,
+    /// like Caught, but the panicking call is made on a clone that has lent another clone of the
+    /// mock (make_ref) and is dropped by the unwinding itself
+    CaughtLendingClone,
 }
 
-const TOPOS: [Topo; 15] = [
+const TOPOS: [Topo; 16] = [
     Topo::Plain,
     Topo::CloneOutlives,
     Topo::CloneDiesFirst,
@@ -245,6 +248,7 @@ const TOPOS: [Topo; 15] = [
     Topo::CaughtRetry,
     Topo::VerifyInGuard,
     Topo::VerifyInGuardCloneAlive,
+    Topo::CaughtLendingClone,
 ];
 
 fn applicable(o: Origin, t: Topo) -> bool {
@@ -256,7 +260,7 @@ fn applicable(o: Origin, t: Topo) -> bool {
         return false;
     }
     match t {
-        Topo::Caught => o.is_user() && !matches!(o, Origin::UserBefore | Origin::UserAfter | Origin::CloneErrorThenUserPanic),
+        Topo::Caught | Topo::CaughtLendingClone => o.is_user() && !matches!(o, Origin::UserBefore | Origin::UserAfter | Origin::CloneErrorThenUserPanic),
         Topo::CaughtRetry => matches!(o, Origin::Matcher | Origin::Answer | Origin::RealFn | Origin::DefaultBody | Origin::RetClone),
         _ => true,
     }
@@ -468,9 +472,17 @@ fn child(origin: Origin, topo: Topo, met: bool) -> ! {
             println!("JOINED: {}", if r.is_err() { "err" } else { "ok" });
             std::process::exit(0);
         }
-        Topo::Caught | Topo::CaughtRetry => {
+        Topo::Caught | Topo::CaughtRetry | Topo::CaughtLendingClone => {
             let u = original;
-            let r = std::panic::catch_unwind(std::panic::AssertUnwindSafe(|| act(&u, origin, met)));
+            let r = std::panic::catch_unwind(std::panic::AssertUnwindSafe(|| {
+                if topo == Topo::CaughtLendingClone {
+                    let c = u.clone();
+                    let _lent: &Unimock = c.make_ref(u.clone());
+                    act(&c, origin, met)
+                } else {
+                    act(&u, origin, met)
+                }
+            }));
             println!("CAUGHT: {}", if r.is_err() { "err" } else { "ok" });
             // the mock is still usable
             if !met {
@@ -569,7 +581,7 @@ fn judge(origin: Origin, topo: Topo, met: bool, r: &CellResult) -> Result<(), St
         return Err(format!("harness expectation broken: {}", r.stdout.trim()));
     }
     match topo {
-        Topo::Caught | Topo::CaughtRetry => {
+        Topo::Caught | Topo::CaughtRetry | Topo::CaughtLendingClone => {
             if r.status != Some(0) {
                 return Err(format!("caught cell exited with {:?}", r.status));
             }
@@ -628,8 +640,17 @@ fn judge(origin: Origin, topo: Topo, met: bool, r: &CellResult) -> Result<(), St
                 if r.status != Some(101) || r.reports.len() != 2 || !r.reports[1].contains(origin.first_report()) {
                     return Err(format!("expected main's verification to fail with the recorded error (exit 101, two reports), got status {:?}, reports {:?}", r.status, r.reports));
                 }
-            } else if r.reports.len() > 2 {
-                return Err(format!("too many panic reports: {:?}", r.reports));
+            } else {
+                // a user panic on a worker's clone leaves verification to judge the counts: the
+                // original reports what is unmet (and nothing when everything is met)
+                let unmet = !met || matches!(origin, Origin::Matcher | Origin::ArgDebug | Origin::MatcherOrdered);
+                if unmet {
+                    if r.status != Some(101) || r.reports.len() != 2 || !TEARDOWN_SENTENCES[2..].iter().any(|s| r.reports[1].contains(s)) {
+                        return Err(format!("expected main's verification to report the unmet expectation (exit 101, second report with expectation lines), got status {:?}, reports {:?}", r.status, r.reports));
+                    }
+                } else if r.status != Some(0) || r.reports.len() != 1 {
+                    return Err(format!("expected a silent verification on main after the worker's user panic (exit 0, one report), got status {:?}, reports {:?}", r.status, r.reports));
+                }
             }
             Ok(())
         }
